@@ -1,5 +1,5 @@
 import CalicoVerif.Model.C44
-import CalicoVerif.Proofs.C18
+import CalicoVerif.Proofs.C44
 /-!
 C44 — Each workload interface carries exactly the state of its preferred endpoint.
 
@@ -8,9 +8,12 @@ exactly the chains and routes of the smallest live endpoint id claiming it, and 
 hence the result depends only on the live endpoints, not on the update order) is FALSE of the
 current code.  Three distinct failing shapes are proved below by concrete histories (each is also a
 replay on the real endpointManager: corpus/C44/d1…, d2…, d3…), all of them involve a live endpoint
-changing its interface name.  What is proved for all histories is the structural part
-(`ifaceToID_consistent`): the name→id map only ever points at active endpoints that carry that
-name, i.e. an interface never has the dispatch entry of two endpoints or of a non-active one.
+changing its interface name.  Proved for ALL histories without such renames
+(`iface_state_eq_spec_partial`, `order_independent_partial`): every interface name carries exactly
+the chains of the minimum live endpoint id claiming it, routes iff that endpoint is admin up, and
+nothing when no live endpoint claims it; hence the programmed state depends only on the live
+endpoints.  Proved for all histories whatsoever (`ifaceToID_consistent`): the name→id map only
+ever points at active endpoints that carry that name.
 -/
 namespace CalicoVerif.C44
 open CalicoVerif.C18 (GoMap get set del get_set get_del)
@@ -231,6 +234,106 @@ theorem ifaceToID_consistent (ops : List Op) : Consistent (run ops) := by
     | update id w => exact hres id (some w)
     | remove id => exact hres id none
 
+
+
+/-- **The property, for all histories in which no live endpoint changes its interface name**
+(endpoints may be updated, go admin down/up, be removed and re-created under another name): every
+interface name carries exactly the policy chains of the smallest live endpoint id claiming it, its
+routes iff that endpoint is admin up, and nothing at all if no live endpoint claims it. -/
+theorem iface_state_eq_spec_partial (ops : List Op) (h : NoRename ops) (name : Nat) :
+    get (run ops).chains name = specChains (live ops) name ∧
+    get (run ops).routes name = specRoutes (live ops) name := by
+  obtain ⟨g, hl⟩ := good_run ops Mgr.new [] good_new C18.nodupKeys_nil h
+  exact chains_of_good _ _ g hl name
+
+/-- …and the name→endpoint dispatch map is exactly "the preferred live endpoint of each name". -/
+theorem dispatch_eq_spec_partial (ops : List Op) (h : NoRename ops) (name : Nat) :
+    get (run ops).ifaceToID name = (preferred (live ops) name).map (·.1) := by
+  obtain ⟨g0, hl0⟩ := good_run ops Mgr.new [] good_new C18.nodupKeys_nil h
+  have g : Good (run ops) (live ops) := g0
+  have hl : C18.NodupKeys (live ops) := hl0
+  unfold preferred
+  rw [best_of_good _ _ g hl name]
+  cases hi : get (run ops).ifaceToID name with
+  | none => rfl
+  | some i =>
+    obtain ⟨e, hact, _⟩ := g.b1 name i hi
+    simp [g.a1 i e hact]
+
+/-- **Order independence, same domain**: two rename-free histories that leave the same live
+endpoints leave the same chains and routes on every interface. -/
+theorem order_independent_partial (ops₁ ops₂ : List Op) (h₁ : NoRename ops₁) (h₂ : NoRename ops₂)
+    (hl : ∀ id, get (live ops₁) id = get (live ops₂) id) (name : Nat) :
+    get (run ops₁).chains name = get (run ops₂).chains name ∧
+    get (run ops₁).routes name = get (run ops₂).routes name := by
+  obtain ⟨_, n1⟩ := good_run ops₁ Mgr.new [] good_new C18.nodupKeys_nil h₁
+  obtain ⟨_, n2⟩ := good_run ops₂ Mgr.new [] good_new C18.nodupKeys_nil h₂
+  rw [(iface_state_eq_spec_partial ops₁ h₁ name).1, (iface_state_eq_spec_partial ops₂ h₂ name).1,
+    (iface_state_eq_spec_partial ops₁ h₁ name).2, (iface_state_eq_spec_partial ops₂ h₂ name).2]
+  unfold specChains specRoutes preferred
+  have hb : bestShadowed (live ops₁) name = bestShadowed (live ops₂) name :=
+    bestShadowed_congr _ _ n1 n2 hl name
+  rw [hb]
+  cases bestShadowed (live ops₂) name with
+  | none => exact ⟨rfl, rfl⟩
+  | some i => simp [hl i]
+
+/-- Non-vacuity of the no-rename domain: a history with shadowing, an admin-down update, a removal that
+promotes, and a removal + re-creation under another interface name. -/
+example : NoRename [Op.update 2 ⟨0, true, 1⟩, .update 0 ⟨0, true, 2⟩, .update 1 ⟨0, false, 3⟩, .remove 0,
+    .remove 2, .update 2 ⟨1, true, 4⟩] := by
+  simp [NoRename, NoRenameFrom, C18.get, C18.set, C18.del]
+
+/-! ### Several updates pending at once -/
+
+theorem process_update_queues_nothing (m : Mgr) (id : Nat) (w : Ep) : (m.process id (some w)).2 = none := by
+  unfold Mgr.process
+  simp only
+  split
+  · split <;> rfl
+  · rfl
+
+theorem ra_nil (f : Nat) (m : Mgr) : Mgr.resolveAll f m [] = [m] := by cases f <;> rfl
+
+theorem ra_one (f : Nat) (m : Mgr) (id : Nat) (w : Option Ep) :
+    Mgr.resolveAll (f + 1) m [(id, w)] = Mgr.resolveAll f (m.process id w).1
+      (match (m.process id w).2 with
+       | some (b, e) => [(b, some e)]
+       | none => []) := by
+  simp only [Mgr.resolveAll, List.flatMap_cons, List.flatMap_nil, List.append_nil]
+  congr 1
+  cases (m.process id w).2 with
+  | none => simp [C18.del]
+  | some be => simp [C18.del, C18.set]
+
+/-- With ONE pending update the all-orders semantics is the single-update `resolve` the theorems are about. -/
+theorem batch_single (m : Mgr) (id : Nat) (w : Option Ep) : m.batch [(id, w)] = [m.resolve id w] := by
+  have hp : mkPending [(id, w)] = [(id, w)] := by simp [mkPending, C18.set, C18.del]
+  unfold Mgr.batch
+  simp only [hp, List.length_cons, List.length_nil]
+  rw [show 2 * (0 + 1) + 2 = 3 + 1 from rfl, ra_one]
+  unfold Mgr.resolve
+  cases h : (m.process id w).2 with
+  | none =>
+    have : m.process id w = ((m.process id w).1, none) := by rw [← h]
+    rw [this]; simp only [ra_nil]
+  | some be =>
+    obtain ⟨b, e⟩ := be
+    have : m.process id w = ((m.process id w).1, some (b, e)) := by rw [← h]
+    rw [this]; simp only
+    rw [ra_one, process_update_queues_nothing]
+    simp only [ra_nil]
+
+/-- D4. In a batch, a promotion overwrites a pending removal: endpoints 0<1 share iface 0 (1 shadowed);
+both are removed before ONE CompleteDeferredWork.  Processing `rm 0` first promotes 1 by writing its
+shadow copy over the pending `rm 1`: the deleted endpoint 1 ends up active with chains and routes.
+Processing `rm 1` first leaves nothing.  Both outcomes are possible; no endpoint is live. -/
+theorem batch_promotion_overwrites_pending_removal :
+    let m := run [Op.update 0 ⟨0, true, 1⟩, .update 1 ⟨0, true, 2⟩]
+    let outs := m.batch [(0, none), (1, none)]
+    (outs.map (fun o => get o.chains 0)) = [none, some ⟨1, true, 2⟩] ∧
+    (outs.map (fun o => get o.active 1)) = [none, some ⟨0, true, 2⟩] ∧
+    live [Op.update 0 ⟨0, true, 1⟩, .update 1 ⟨0, true, 2⟩, .remove 0, .remove 1] = [] := by decide
 
 /-- Where shadowing works (no renames): 0<1<2 all claim iface 0; removing the active one promotes the
 smallest waiting id; an admin-down endpoint gets chains but no routes. -/
